@@ -234,11 +234,18 @@ CLAIMED = {
          "exact multiset accounting of registrations (add = +1, each yield consumes exactly one registration under the head met dependency, "
          "a complete drain releases exactly the registrations under met dependencies and leaves none: C06_drain_complete), and for every run "
          "of the solver model each input is asked at most once and nothing is asked after a refusal (C06_prompts_bounded). "
-         "Tie: tracker histories (random + all short ones) and solver traces executed on model and real code. Termination and the "
-         "per-line evaluation bound are decided by the monitor on the real solver under an attempt budget (attempts <= "
-         "schedulings*(1+distinct waits)+spec loads), not yet by a theorem - stated as partial.",
+         "Bounded work, the part that is a theorem (SolverWaits.v): for every catalogue with distinct line names, every input, rank "
+         "function, answer oracle and fuel - whether the run finishes, fails, aborts or is cut short - no line ever waits twice for the same "
+         "line (C06_no_repeated_wait: the list of all (waiter, line) registrations ever made has no duplicates) and each line is in at most "
+         "one place, queued or registered under one dependency of one tracker (C06_one_place_per_line), so a line is attempted only "
+         "when registered nowhere and each attempt registers it at most once; proved by a token invariant carried through the whole "
+         "control flow next to the two earlier invariants. "
+         "Tie: tracker histories (random + all short ones) and solver traces executed on model and real code. Termination and the numeric "
+         "evaluation bound (attempts <= schedulings*(1+distinct waits)+spec loads) are decided by the monitor on the real solver under an "
+         "attempt budget, and a real-form monitor checks that no line is left waiting on a dependency that holds a value - stated as partial.",
     design_ref='DESIGN.md §4 C06',
-    note="Trusted as for C01. The evaluation bound/termination are observed, not proved (partial); wall-clock and recursion depth are runtime.",
+    note="Trusted as for C01. Termination itself (a fuel bound) and the count of evaluations are observed, not proved (partial); wall-clock and "
+         "recursion depth are runtime. The two new theorems assume NoDup of the requested forms and no individually requested lines.",
     technique='Rocq refinement proof of the tracker (Permutation accounting) + invariant on the prompt transcript; correspondence; budgeted monitor',
  ),
  'C13': dict(
